@@ -134,6 +134,10 @@ func (g *Gateway) subscriptionHandler(w http.ResponseWriter, r *http.Request) {
 		// Let event handlers deal with starting operations
 		case requests.SubStart:
 			request := subMsg.Payload
+			// start message must carry the operation
+			if request == nil {
+				return
+			}
 			request.Original = r
 
 			query, qerr := gqlparser.LoadQuery(g.schema, request.Query)
